@@ -187,6 +187,15 @@ theorem C17_mdef_decides (f : File) :
   ⟨Sat.decides (mdefPlan_sat f), fun i => Sat.not_oob (mdefPlan_sat f) i,
    fun i n => Sat.not_idx (mdefPlan_sat f) i n⟩
 
+/-- **C17, the in-place tables of an accepted binary mdef are aligned** (D19j): `ciname[0]`, the
+`cd_tree`, the phone records, `sseq_size` and the sequences all start at a multiple of 4 bytes from
+the start of the file, so the `int16`/`int32` pointers the C code lays over them are aligned
+whenever the buffer itself is. -/
+theorem C17_mdef_tables_aligned (f : File) (o : MdefOut) (h : mdefPlan f = .ok o) :
+    o.hdr.dataOff % 4 = 0 ∧ o.lay.treeOff % 4 = 0 ∧ o.lay.phoneOff % 4 = 0 ∧ o.lay.sseqOff % 4 = 0 := by
+  have := Sat.of_ok (mdefPlan_aligned f) h
+  exact ⟨this.1, this.2.1, this.2.2.1, this.2.2.2⟩
+
 /-- a 5-phone, 10-senone binary mdef (3 CI phones `A`, `B`, `SIL`, 2 states each) … -/
 def exMdef : List UInt8 := [66, 77, 68, 70, 1, 0, 0, 0, 12, 0, 0, 0, 98, 105, 110, 32, 109, 100, 101, 102, 0, 0, 0, 0, 3, 0, 0, 0, 5, 0, 0, 0, 2, 0, 0, 0, 6, 0, 0, 0, 10, 0, 0, 0, 3, 0, 0, 0, 5, 0, 0, 0, 3, 0, 0, 0, 4, 0, 0, 0, 2, 0, 0, 0, 65, 0, 66, 0, 83, 73, 76, 0, 0, 0, 1, 0, 1, 0, 0, 0, 1, 0, 1, 0, 2, 0, 0, 0, 2, 0, 1, 0, 3, 0, 0, 0, 3, 0, 1, 0, 4, 0, 0, 0, 0, 0, 0, 0, 0, 0, 0, 0, 1, 0, 0, 0, 1, 0, 0, 0, 1, 0, 0, 0, 1, 0, 0, 0, 2, 0, 0, 0, 2, 0, 0, 0, 1, 0, 0, 0, 3, 0, 0, 0, 0, 0, 0, 0, 3, 0, 1, 2, 4, 0, 0, 0, 1, 0, 0, 0, 0, 1, 2, 0, 10, 0, 0, 0, 0, 0, 1, 0, 2, 0, 3, 0, 4, 0, 5, 0, 6, 0, 7, 0, 8, 0, 9, 0]
 example : (match mdefPlan (File.ofList exMdef) with
